@@ -57,6 +57,7 @@ type c14Tx struct {
 	Nonce  int32      `json:"nonce"`
 	Based  uint64     `json:"based"`
 	Prices []c14Price `json:"prices"`
+	NS     int64      `json:"ns,omitempty"` // price reported for the non-deterministic source 2 (0 = the message has no such part)
 }
 
 type c14Block struct {
@@ -124,6 +125,7 @@ type c14Cfg struct {
 	Starts    [2]uint64
 	MaxNonce  int32
 	ChainID   string `json:",omitempty"` // "" = the default (mainnet-type) chain id
+	NS        uint64 `json:",omitempty"` // feeder id whose rule demands the deterministic source 1 AND a non-deterministic source 2 (0 = chainlink-only params)
 }
 
 func c14NewWorld(cfg c14Cfg) *c14World {
@@ -142,6 +144,16 @@ func c14NewWorld(cfg c14Cfg) *c14World {
 		}
 		if cfg.MaxNonce > 0 {
 			og.Params.MaxNonce = cfg.MaxNonce
+		}
+		if cfg.NS != 0 {
+			// legal, non-default params: a second, NON-deterministic source; rule 2 = {1, 2} for feeder cfg.NS, rule 3 = {1} for
+			// the others (the default rule {0} = "all valid sources" would change meaning with a second valid source)
+			og.Params.Sources = append(og.Params.Sources, &oracletypes.Source{Name: "dex spot", Entry: &oracletypes.Endpoint{Offchain: map[uint64]string{0: ""}}, Valid: true, Deterministic: false})
+			og.Params.Rules = append(og.Params.Rules, &oracletypes.RuleSource{SourceIDs: []uint64{1, 2}}, &oracletypes.RuleSource{SourceIDs: []uint64{1}})
+			for i := 1; i < len(og.Params.TokenFeeders); i++ {
+				og.Params.TokenFeeders[i].RuleID = 3
+			}
+			og.Params.TokenFeeders[cfg.NS].RuleID = 2
 		}
 		gs[oracletypes.ModuleName] = app.AppCodec().MustMarshalJSON(&og)
 		var dg dogfoodtypes.GenesisState
@@ -181,7 +193,11 @@ func (w *c14World) msgOf(tx c14Tx) *oracletypes.MsgCreatePrice {
 			Price: fmt.Sprintf("%d", p.Price), Decimal: dec, Timestamp: w.ts, DetID: fmt.Sprintf("%d", p.Det),
 		})
 	}
-	return &oracletypes.MsgCreatePrice{Creator: w.creator[tx.Val], FeederID: tx.Feeder, Prices: []*oracletypes.PriceSource{ps}, BasedBlock: tx.Based, Nonce: tx.Nonce}
+	srcs := []*oracletypes.PriceSource{ps}
+	if tx.NS != 0 {
+		srcs = append(srcs, &oracletypes.PriceSource{SourceID: 2, Desc: "-", Prices: []*oracletypes.PriceTimeDetID{{Price: fmt.Sprintf("%d", tx.NS), Decimal: dec, Timestamp: w.ts}}})
+	}
+	return &oracletypes.MsgCreatePrice{Creator: w.creator[tx.Val], FeederID: tx.Feeder, Prices: srcs, BasedBlock: tx.Based, Nonce: tx.Nonce}
 }
 
 // deliver emulates DeliverTx of a fee-less create-price tx: the ante chain's nonce decorator in its own cache
@@ -668,6 +684,11 @@ func (w *c14World) genBlock(rng *rand.Rand, wr *CaseWriter, style int) c14Block 
 					}
 					tx.Prices = append(tx.Prices, c14Price{Det: det, Price: pr})
 				}
+				if int(f.RuleID) < len(p.Rules) && len(p.Rules[f.RuleID].SourceIDs) == 2 && (h+uint64(v)+uint64(s))%7 != 0 {
+					// the feeder's rule also demands the non-deterministic source: validators report DIFFERENT prices there (no
+					// rng draw: the deterministic-source part of every history stays what it was); 1 in 7 omits it (rejected)
+					tx.NS = 200 + 100*int64(v) + int64(round%3)
+				}
 				b.Txs = append(b.Txs, tx)
 				wr.Count("tx")
 			}
@@ -1006,6 +1027,13 @@ func c14Directed() []c14Plan {
 		d3[i].DT = 20
 	}
 	d3[1].Deposit, d3[1].DepAmt = 1, 77
+	// feeder 2 (start 1, interval 10: round based 11, window blocks 12..14) has a rule with a deterministic AND a non-deterministic
+	// source; validator 0 reports in block 12 (chainlink 100, dex 200), validator 1 in block 13 (chainlink 100, dex 300): a node
+	// restarted in between must rebuild validator 0's report WITH its non-deterministic part and finalize the same price
+	nsCfg := c14Cfg{Deposits: []int64{101, 100}, Intervals: [2]uint64{6, 10}, Starts: [2]uint64{1, 1}, MaxNonce: 3, NS: 2}
+	d12 := e(16)
+	d12[11].Txs = []c14Tx{{Val: 0, Feeder: 2, Nonce: 1, Based: 11, Prices: px(7, 100), NS: 200}}
+	d12[12].Txs = []c14Tx{{Val: 1, Feeder: 2, Nonce: 1, Based: 11, Prices: px(7, 100), NS: 300}}
 	return []c14Plan{
 		{name: "kf-nonce0", cfg: two, blocks: d1, n: 14, puAt: -1, depAt: -1, undAt: -1},
 		{name: "kf-final", cfg: two, blocks: d2, n: 14, puAt: -1, depAt: -1, undAt: -1},
@@ -1018,6 +1046,7 @@ func c14Directed() []c14Plan {
 		{name: "reg-register-new-token", cfg: two, blocks: d10, n: 14, puAt: -1, depAt: -1, undAt: -1},
 		{name: "reg-simulate-update-params", cfg: testnet, blocks: d11, n: 12, puAt: -1, depAt: -1, undAt: -1, simTwins: true},
 		{name: "reg-valset-removal", cfg: three, blocks: d8, n: 18, puAt: -1, depAt: -1, undAt: -1},
+		{name: "reg-ns-source", cfg: nsCfg, blocks: d12, n: 16, puAt: -1, depAt: -1, undAt: -1},
 	}
 }
 
@@ -1045,6 +1074,11 @@ func runC14(a *Args) error {
 				op := 1 + rng.Intn(len(plan.cfg.Deposits)-1)
 				plan.undAt, plan.undOp, plan.undAmt = 1+rng.Intn(plan.n-6), op+1, plan.cfg.Deposits[op]-99+int64(rng.Intn(40))
 			}
+			if hi%6 == 5 {
+				// every sixth generated history runs on params whose feeder 2 demands a deterministic and a non-deterministic source
+				// (no rng draw). Not modelled (the Coq model has one deterministic source): property checks (monitor) only.
+				plan.cfg.NS = 2
+			}
 		}
 		world := c14NewWorld(plan.cfg)
 		nBlocks := plan.n
@@ -1059,7 +1093,10 @@ func runC14(a *Args) error {
 		coqParams := cApp("mkParams", cList(fs), cZ(int64(p0.MaxNonce)))
 		coqVals := c14Pairs(world.valSet())
 		coqNext0 := "[(1%Z, (2%Z, Some 1%Z)); (2%Z, (2%Z, Some 1%Z))]"
-		modelled := true
+		modelled := plan.cfg.NS == 0
+		if plan.cfg.NS != 0 {
+			w.Count("hist_ns_source")
+		}
 
 		var cont []c14Obs
 		var hdrs []abci.RequestBeginBlock // hdrs[i] = BeginBlock request of height i+1
@@ -1106,6 +1143,9 @@ func runC14(a *Args) error {
 				txs[i] = tx.coq()
 				codes[i] = cZ(int64(o.Codes[i]))
 				w.Count(fmt.Sprintf("code_%d", o.Codes[i]))
+				if tx.NS != 0 {
+					w.Count(fmt.Sprintf("tx_ns_code_%d", o.Codes[i]))
+				}
 			}
 			vu := "None"
 			if o.VU > 0 {
